@@ -998,6 +998,17 @@ func Vacuum(ctx context.Context, tableName string, beforeTime time.Time) error {
 	}
 	table.Tree.Root = db
 	db = nil
+	if table.txStart != nil {
+		// A transaction that has not changed anything yet is open. Its
+		// snapshot is the tree from before the vacuum, whose nodes may be
+		// deleted below: rolling back has to return to the vacuumed tree.
+		snapshot, err := table.Tree.Root.Clone(ctx)
+		if err != nil {
+			return fmt.Errorf("clone: %w", err)
+		}
+		table.txStart.Cancel()
+		table.txStart = snapshot
+	}
 
 	err = kv.DeleteHistoricVersions(ctx, table.Tree.Root, beforeTime)
 	if err != nil {
